@@ -4,3 +4,4 @@ import Spade.Properties.C07
 #print axioms Spade.C07_flip_decreases
 #print axioms Spade.C07_decreasing_chain_bounded
 #print axioms Spade.C07_nn_walk_local_min
+#print axioms Spade.C07_code_circular_iterator_stops
